@@ -343,8 +343,8 @@ Lemma simple_cost sp I p w :
   compile_pref p = Some w ->
   w_level w = rank (pf_prio p) /\ agg_value ASum (wc_elements sp I w) = EFin (directed sp I p).
 Proof.
-  intros Hadm Hids Hs Hd Hc. unfold compile_pref in Hc. rewrite prio_level_rank, (dir_neg_wants _ Hd) in Hc.
-  rewrite directed_sgn. unfold quantity.
+  intros Hadm Hids Hs Hd Hc. unfold compile_pref in Hc. destruct (pf_only p) eqn:Eonly; [|discriminate]. rewrite prio_level_rank, (dir_neg_wants _ Hd) in Hc.
+  rewrite directed_sgn. unfold quantity, restrict. rewrite Eonly.
   destruct (pf_form p) as [f c|f|c| |c ph k]; try discriminate Hs.
   - (* PVar *)
     destruct c; injection Hc as <-; (split; [reflexivity|]).
@@ -543,9 +543,9 @@ Lemma agg_all_cost sp I p w f c :
   adm sp I -> pf_form p = PAggAll f c -> c <> KWeight -> pf_dir p <> DAsMuch -> compile_pref p = Some w ->
   w_level w = rank (pf_prio p) /\ agg_value ASum (wc_elements sp I w) = EFin (directed sp I p).
 Proof.
-  intros Hadm Hf Hc Hd Hw. unfold compile_pref in Hw. rewrite prio_level_rank, (dir_neg_wants _ Hd), Hf in Hw.
+  intros Hadm Hf Hc Hd Hw. unfold compile_pref in Hw. destruct (pf_only p) eqn:Eonly; [|discriminate]. rewrite prio_level_rank, (dir_neg_wants _ Hd), Hf in Hw.
   destruct (fn_tables f) as (op & sym & Hop & Hsym & Hfn). rewrite Hop in Hw. injection Hw as <-. split; [reflexivity|].
-  rewrite directed_sgn. unfold quantity. rewrite Hf.
+  rewrite directed_sgn. unfold quantity, restrict. rewrite Eonly, Hf.
   unfold wc_elements. cbn [w_body w_neg w_weight w_level w_tuple]. change (wc_globals _) with (@nil string).
   cbn [all_bindings flat_map wbody_true].
   pose proof (agg_all_eval sp I Hadm op sym f c Hsym Hfn Hc) as E. cbv zeta in E. rewrite E.
@@ -606,9 +606,9 @@ Lemma agg_room_cost sp I p w f :
   adm sp I -> pf_form p = PAggPerRoom f -> pf_dir p <> DAsMuch -> compile_pref p = Some w ->
   w_level w = rank (pf_prio p) /\ agg_value ASum (wc_elements sp I w) = EFin (directed sp I p).
 Proof.
-  intros Hadm Hf Hd Hw. unfold compile_pref in Hw. rewrite prio_level_rank, (dir_neg_wants _ Hd), Hf in Hw.
+  intros Hadm Hf Hd Hw. unfold compile_pref in Hw. destruct (pf_only p) eqn:Eonly; [|discriminate]. rewrite prio_level_rank, (dir_neg_wants _ Hd), Hf in Hw.
   destruct (fn_tables f) as (op & sym & Hop & Hsym & Hfn). rewrite Hop in Hw. injection Hw as <-. split; [reflexivity|].
-  rewrite directed_sgn. unfold quantity. rewrite Hf.
+  rewrite directed_sgn. unfold quantity, restrict. rewrite Eonly, Hf.
   exact (per_room_cost sp I Hadm op sym f (wants_max (pf_dir p)) (rank (pf_prio p)) Hsym Hfn).
 Qed.
 
@@ -639,7 +639,7 @@ Proof.
   (* levels of the weak constraints = ranks of the preferences, in the same order *)
   assert (Hlv : map w_level ws = map rankp (p_prefs sp)).
   { clear - Hc Hsimple. revert Hsimple. induction Hc as [|p w ps ws' Hpw Hrest IH]; intros Hs; [reflexivity|]. cbn. f_equal.
-    - unfold compile_pref in Hpw. rewrite prio_level_rank in Hpw. destruct (dir_neg (pf_dir p)); [|discriminate].
+    - unfold compile_pref in Hpw. destruct (pf_only p); [|discriminate]. rewrite prio_level_rank in Hpw. destruct (dir_neg (pf_dir p)); [|discriminate].
       destruct (pf_form p) as [f c|f|c| |c ph k]; try (destruct (fn_op f); [|discriminate]); try (destruct (phrase_op ph); [|discriminate]);
         injection Hpw as <-; reflexivity.
     - apply IH. intros q Hq. apply Hs. now right. }
